@@ -525,8 +525,8 @@ func defineFieldMap(ttype Named, fieldMap Fields) (FieldDefinitionMap, error) {
 		if err != nil {
 			return resultFieldMap, err
 		}
-		if field.Type.Error() != nil {
-			return resultFieldMap, field.Type.Error()
+		if err = typeError(field.Type); err != nil {
+			return resultFieldMap, err
 		}
 		if err = invariantf(
 			IsOutputType(field.Type),
@@ -567,6 +567,9 @@ func defineFieldMap(ttype Named, fieldMap Fields) (FieldDefinitionMap, error) {
 				!isNilType(arg.Type),
 				`%v.%v(%v:) argument type must be Input Type but got: %v.`, ttype, fieldName, argName, arg.Type,
 			); err != nil {
+				return resultFieldMap, err
+			}
+			if err = typeError(arg.Type); err != nil {
 				return resultFieldMap, err
 			}
 			if err = invariantf(
@@ -1227,6 +1230,9 @@ func (gt *InputObject) defineFieldMap() InputObjectFieldMap {
 		); gt.err != nil {
 			return resultFieldMap
 		}
+		if gt.err = typeError(fieldConfig.Type); gt.err != nil {
+			return resultFieldMap
+		}
 		if gt.err = invariantf(
 			IsInputType(fieldConfig.Type),
 			`%v.%v field type must be Input Type but got: %v.`, gt, fieldName, fieldConfig.Type,
@@ -1382,6 +1388,28 @@ func isNilType(t Type) bool {
 	}
 	v := reflect.ValueOf(t)
 	return v.Kind() == reflect.Ptr && v.IsNil()
+}
+
+// typeError returns the first error parked anywhere in a type expression:
+// on a wrapper, on what it wraps (a nil counts), or on the named type.
+func typeError(t Type) error {
+	for depth := 0; depth < 64; depth++ {
+		if isNilType(t) {
+			return invariantf(false, "Type expression contains nil.")
+		}
+		if err := t.Error(); err != nil {
+			return err
+		}
+		switch w := t.(type) {
+		case *List:
+			t = w.OfType
+		case *NonNull:
+			t = w.OfType
+		default:
+			return nil
+		}
+	}
+	return nil
 }
 
 var NameRegExp = regexp.MustCompile("^[_a-zA-Z][_a-zA-Z0-9]*$")
